@@ -265,6 +265,42 @@ def check(facts, rep, tier, cfg):
                         ok = kf == {"flow_id"}
                         (rep.ok if ok else rep.bad)("C01.R2", "server-routes-by-flow-id/%s" % c["name"], where,
                                                     "udp_clients keyed by datagram.flow_id" if ok else "server UDP client table keyed by %s" % sorted(kf))
+    # ---- R5 every forwarded datagram goes to the target it names
+    if has_server:
+        rep.rule("C01.R5", "server UDP forwarder: each datagram is sent to the (target_host, target_port) carried by that same datagram")
+        k5 = 0
+        for b in crate.bodies:
+            if "/src/server/forwarder.rs" not in b.file:
+                continue
+            tr = None
+            for bi, t in b.calls():
+                c = callee(t)
+                if not (c and c["name"] == "send_to" and "UdpSocket" in c["def"]):
+                    continue
+                tr = tr or Tracer(facts, b)
+
+                def bases(node, fields):
+                    out = set()
+                    for x in walk(node):
+                        if x.kind == "field" and x[2] in fields and (x[3] or "").endswith("penguin_mux::Datagram"):
+                            out.add(strip(x[1]))
+                    return out
+                d = bases(tr.operand(t["args"][1]), {"data"})
+                tg = bases(tr.operand(t["args"][2]), {"target_host", "target_port"})
+                if not d:
+                    continue
+                k5 += 1
+                rep.analysed(b)
+                where = "%s (%s)" % (loc_str(t["loc"]), b.path)
+                key = "forwarder-target/%d" % k5
+                if d and tg and d <= tg:
+                    rep.ok("C01.R5", key, where, "payload and target come from the same datagram")
+                else:
+                    rep.bad("C01.R5", "forwarder-target-mismatch/%d" % k5, where,
+                            "a datagram's payload is sent to a target that is not taken from that datagram (target from %s, payload from %s): "
+                            "a second target on the same UDP flow receives nothing, the first target receives its traffic" % (
+                                sorted(fmt(x)[:40] for x in tg), sorted(fmt(x)[:40] for x in d)))
+        rep.floor("C01.R5", "forwarder send_to sites", k5, 2)
     # SOCKS5 UDP reply header: C18.R1
     socks = facts.crate("penguin_socks")
     if socks is not None and has_client:
